@@ -46,6 +46,25 @@ Definition frame_is_success (f : frame) : bool :=
   | FT _ => false
   end.
 
+(* read soundness of the faulted command itself: every value frame it sent for a get / gete /
+   get-and-touch carries exactly the data and flags the single map holds for that key (text: the
+   key is in the VALUE line; binary: the key(s) of the request item(s) with the frame's opaque) *)
+Definition value_sound (now : N) (s0 : store) (r : req) (f : frame) : bool :=
+  let holds (k d : bytes) (fl : N) :=
+    match live now s0 k with Some e => bytes_eqb d (e_data e) && (fl =? e_flags e) | None => false end in
+  if negb (is_value f) then true
+  else match f with
+       | FT (TValue k fl d) => holds k d fl
+       | FT (TLine _) => true
+       | FB b =>
+           let ks := match r with
+                     | RGet items _ _ | RGetE items _ _ =>
+                         map gi_key (filter (fun it => gi_opaque it =? bf_opaque b) items)
+                     | RGat k _ _ => [k]
+                     | _ => [] end in
+           existsb (fun k => holds k (bf_value b) (rd32 (take 4 (bf_extras b)))) ks
+       end.
+
 (* the oracles of C10 on one observed run: s0 = the single map before the command, s1 = after it *)
 Definition oracle10 (c : case10) (s0 s1 : store) : bool :=
   let p := q_proto c in
@@ -77,6 +96,11 @@ Definition oracle10 (c : case10) (s0 s1 : store) : bool :=
      | (RGet _ _ _ | RGetE _ _ _), _ => true
      | _, Some fs => forallb (fun f => match frame_opaque f with Some o => o =? req_opaque r | None => true end) fs
      | _, None => true
+     end) &&
+    (* a read hit by the fault returns the stored value or no value: never bytes nobody wrote *)
+    (match r, decode p (q_reply c) with
+     | (RGet _ _ _ | RGetE _ _ _ | RGat _ _ _), Some fs => forallb (value_sound now s0 r) fs
+     | _, _ => true
      end) &&
     (* no stale value after an ack; reads after a fault: the value before, the value after, or a miss *)
     forallb (fun kr => let '(k, rep) := kr in
